@@ -354,6 +354,8 @@ def c11(ctx, replay):
     mcs = [dict(name="vecagg-pool", module="MC_VecAgg", consts=dict(MaxSeries=3, Depth=3, Pools=q(T(ctx, "quick", "full")), VecMode=q("pool")), invariants=inv)]
     if ctx.tier != "quick":
         mcs.append(dict(name="vecagg-free", module="MC_VecAgg", consts=dict(MaxSeries=3, Depth=2, Pools=q("quick"), VecMode=q("free")), invariants=inv))
+    # the bounded heap with three levels: one group of N distinct values arriving in every order, every k
+    mcs.append(dict(name="topk-orders", module="MC_TopK", consts=dict(N=T(ctx, 6, 7), Reps=T(ctx, 6, 12)), invariants=["KeepsKBest", "RootIsWorst"]))
     return std(ctx, "C11", mc=mcs, harness_cmd="metric", harness_opts=["mode=vecagg"], trace_module="Trace_Metric",
                nrand=T(ctx, 2000, 30000), replay=replay, nontrivial=_metric_nontrivial, exhaustive=True, chunk_events=20000,
                rule="step 1: nested by/without refinement of one label list (impl-shaped) vs set algebra applied level by level to output "
@@ -361,7 +363,7 @@ def c11(ctx, replay):
                     "1-4 series over two labels with value ties, 3 (quick) / 7 (thorough) operators, 9 clauses (none, by (), without (), "
                     "existing and non-existent labels) and nestings to depth three; thorough adds every input vector of <=3 series at depth "
                     "two; each case is replayed as logs yielding that input vector (instant: vector order observable; range); random "
-                    "driver: <=10 records, unwrapped and counted inputs, all 7 operators + topk/bottomk k in {1,2,5} + sort/sort_desc; TLC "
+                    "driver: <=10 records, unwrapped and counted inputs, all 7 operators + topk/bottomk k in {1,2,5} + sort/sort_desc, one case in six a single group of 6-9 series with distinct values under topk/bottomk k in 3..6 evaluated 6x; MC_TopK: every arrival order of 6 (quick) / 7 (thorough) distinct values into the bounded heap for every k, one replayed case per (k, operator) evaluated 6x / 12x (the arrival order in the code is Go's map order); TLC "
                     "checks every point against the declarative result; non-trivial = distinct (records, expression)",
                assumptions=["which members tie-break into topk/bottomk and the order of equal values in sort are left open",
                             "inputs lie inside every window (window edges are C09's subject)"])
@@ -369,7 +371,7 @@ def c11(ctx, replay):
 
 @prop("C12")
 def c12(ctx, replay):
-    inv = ["ArithMatches", "SetOpsMatch", "JoinShape", "SideMatters", "DivModByZero"]
+    inv = ["ArithMatches", "SetOpsMatch", "JoinShape", "SideMatters", "DivModByZero", "NaNOnlyUnequal"]
     mcs = [dict(name="binop", module="MC_BinOp", consts=dict(Pools=V.tla_str(T(ctx, "quick", "full"))), invariants=inv)]
     return std(ctx, "C12", mc=mcs, harness_cmd="metric", harness_opts=["mode=binop"], trace_module="Trace_Metric",
                nrand=T(ctx, 2000, 30000), replay=replay, nontrivial=_metric_nontrivial, exhaustive=True, chunk_events=20000,
